@@ -29,6 +29,7 @@ KNOWN_D2 = "EmptyMatchAtEndOfUnterminatedLastLine"
 KNOWN_MLMAX = "MultiLineMaxCountSummary"
 KNOWN_MLOEMPTY = "MultiLineOnlyMatchingDropsEmptyMatches"
 KNOWN_SUMBYTES = "SummaryStatsBytesPrintedSampledBeforeOutput"
+KNOWN_JSONSUM = "JsonSummaryOmitsFilesWithoutOutput"
 
 LINE_PATTERNS = [
     "a", "b+", "$", "^", r"\b", r"\B", "x*", "a|$", "c|$", "^$", r"\w+", "[ab]", "a.", ".", r"\s", "(?:ab)?", "b$",
@@ -524,6 +525,7 @@ def check_cli(ctx, c, lib_outs):
         v("-o --count is not --count-matches", a=r["norm_oc"][1], b=r["cm"][1])
     # 4. --stats totals are sums over files
     body, tot = split_stats(r["std_stats"][1])
+    tot_std = list(tot) if tot is not None else None
     if tot is None:
         v("no --stats block in standard mode output")
     else:
@@ -578,6 +580,26 @@ def check_cli(ctx, c, lib_outs):
             if summary[k] != sum(e[k] for e in ends):
                 v("JSON summary.%s is not the sum over the end messages" % k, summary=summary[k],
                   ends=[e[k] for e in ends])
+    # plain --json implies --stats: its summary totals are those `--stats` reports in standard mode
+    if summary is not None and tot_std is not None:
+        a = (summary["matches"], summary["matched_lines"], summary["searches_with_match"])
+        if a != (tot_std[0], tot_std[1], tot_std[2]):
+            v("--json summary (matches, matched lines, files with matches) differs from the --stats totals",
+              json=a, stats=tot_std[:3])
+        nbegin = sum(1 for m in msgs if m["type"] == "begin")
+        ends = [m["data"]["stats"] for m in msgs if m["type"] == "end"]
+        want_bytes = tot_std[5] if c["mx"] is None else summary["bytes_searched"]
+        if summary["searches"] != tot_std[3] or summary["bytes_searched"] != want_bytes:
+            # known: JSONSink::finish returns before adding the statistics of a search that printed nothing
+            if (summary["searches"] == nbegin < tot_std[3]
+                    and summary["bytes_searched"] == sum(e["bytes_searched"] for e in ends)):
+                ctx.known(KNOWN_JSONSUM, "cli pattern=%r files=%r: --json summary searches=%d bytes_searched=%d, --stats: "
+                          "%d files searched, %d bytes searched" % (c["pattern"], [d for _, d in c["files"]],
+                                                                   summary["searches"], summary["bytes_searched"],
+                                                                   tot_std[3], tot_std[5]))
+            else:
+                v("--json summary (searches, bytes searched) differs from the --stats totals",
+                  json=(summary["searches"], summary["bytes_searched"]), stats=(tot_std[3], tot_std[5]))
     # --quiet with statistics (-q --stats, and --json -q where statistics are implicit) must still search every
     # file: the totals are the sums of what the per-file modes report
     nl = len(parse_paths(r["l"][1]))
